@@ -167,8 +167,18 @@ impl Prop for C19 {
                     }
                 }
                 Op::Clone => {
-                    let c = bv.clone();
-                    ensure!(c == bv, "BitVector.clone", "clone != original");
+                    // clone(), or clone_from() onto a vector with other bits and other supports
+                    let c = if step % 2 == 0 {
+                        bv.clone()
+                    } else {
+                        let mut t = BitVector::from(RawVector::with_len(bits.len / 2 + 131, true));
+                        t.enable_rank();
+                        t.enable_select_zero();
+                        t.clone_from(&bv);
+                        t
+                    };
+                    ensure!(c == bv, "BitVector.clone", "clone / clone_from != original");
+                    ensure_eq!(c.count_ones(), bv.count_ones(), "BitVector.clone", "count_ones of the clone");
                     bv = c;
                 }
             }
@@ -209,10 +219,14 @@ impl Prop for C19 {
             let all = docfmt::to_elements(&lib_bytes).map_err(|e| Fail::new("harness", e))?;
             // Some(x) = length element + x
             let elems: Vec<u64> = if in_option { all[1..].to_vec() } else { all };
+            // which support structures each embedded bitvector keeps: none at all in half of the cases, otherwise a generated
+            // subset per bitvector (the format makes every one of them independently optional)
+            let keep: Vec<u8> = if case.extra.len() % 2 == 0 { Vec::new() } else { case.extra.iter().map(|&b| (b % 8) as u8).collect() };
+            let mixed = keep.iter().any(|&k| k != 0);
             let stripped = match &case.val.leaf {
-                Leaf::Sparse(_) | Leaf::SparseBig(_) | Leaf::SparseMulti(_, _) => Some(("SparseVector", docfmt::strip_sparse(&elems))),
-                Leaf::Core(_) => Some(("WMCore", docfmt::strip_core(&elems))),
-                Leaf::WM(_) => Some(("WaveletMatrix", docfmt::strip_wm(&elems))),
+                Leaf::Sparse(_) | Leaf::SparseBig(_) | Leaf::SparseMulti(_, _) => Some(("SparseVector", docfmt::strip_sparse_masked(&elems, keep.first().copied().unwrap_or(0)))),
+                Leaf::Core(_) => Some(("WMCore", docfmt::strip_core_masked(&elems, &keep))),
+                Leaf::WM(_) => Some(("WaveletMatrix", docfmt::strip_wm_masked(&elems, &keep))),
                 _ => None,
             };
             if let Some((what, s)) = stripped {
@@ -229,6 +243,7 @@ impl Prop for C19 {
                 ensure_eq!(loaded.probe(), x.probe(), format!("load-stripped.{}.answers", what), "{} loaded from a file without embedded supports answers the query plan differently", what);
                 rep.class(&format!("stripped:{}", what));
                 rep.class_if(in_option, "stripped-inside-option");
+                rep.class_if(mixed, "stripped:mixed-subsets-per-bitvector");
             }
         }
 
@@ -265,7 +280,7 @@ impl Prop for C19 {
                 return Err(format!("support subset {:03b} was never written", m));
             }
         }
-        for c in ["stripped:SparseVector", "stripped:WMCore", "stripped:WaveletMatrix", "stripped-inside-option", "skip_option:None", "skip_option:Some", "skip_option:SomeNone", "skip_option:SomeSome", "long-superblock(ones)", "long-superblock(zeros)"] {
+        for c in ["stripped:SparseVector", "stripped:WMCore", "stripped:WaveletMatrix", "stripped-inside-option", "stripped:mixed-subsets-per-bitvector", "skip_option:None", "skip_option:Some", "skip_option:SomeNone", "skip_option:SomeSome", "long-superblock(ones)", "long-superblock(zeros)"] {
             if classes.get(c).copied().unwrap_or(0) == 0 {
                 return Err(format!("no generated case reached class {}", c));
             }
